@@ -43,6 +43,16 @@ Conventions (all value-preserving in exact arithmetic; they are the translator's
   * `sorted((a, b))` -> `if b < a then (b, a) else (a, b)` (Python's sort is stable).
 
 The output is deterministic: on an unchanged source tree the files are rewritten byte-identically (and not touched).
+
+STATEMENT-LEVEL ENGINE (py2lean_stmt.py; keys imager, landscaper, plarith, graph, approx, bottleneck, wasserstein of FILES;
+`pre_build` of C12, C18, C09, C17, C08, C01, C02).  The same  generate(repo_root, out_dir, only=[...])  also renders the files
+of the second engine, which translates small statement-level Python -- methods reading and writing attributes of `self`
+(fields of the model's state record), raising calls (`Except`), `if/elif/else` that re-assign several names, `for` loops
+(structural recursions carrying the re-assigned names), a `while` loop with a decreasing measure (well-founded recursion split
+on the shapes of the consumed lists) and NumPy block assignments read entry-wise -- and emits obligations proved by `rfl`, by
+case analysis, or by an induction that relates the generated loop to the model's recursion (proof scripts fixed in its
+TARGETS table; model-only helper lemmas in lean/PersimVerif/Lemmas/SrcBridge*.lean, the Python builtins it uses in
+lean/PersimVerif/Lemmas/SrcLib.lean).  Its conventions are stated in its module docstring and in every generated header.
 """
 import ast, os, re
 from fractions import Fraction
@@ -999,8 +1009,12 @@ def manifest_note(key):
     fs = []
     if key in STMT_KEYS:
         for cfg in py2lean_stmt.TARGETS:
-            if cfg["file"] == key and cfg["func"] not in fs:
-                fs.append(cfg["func"])
+            if cfg["file"] == key:
+                f = cfg["func"] + (" of %s" % cfg["pyfile"] if cfg.get("pyfile") else "")
+                if cfg.get("region", "function") != "function":
+                    f += " (region `%s`)" % cfg["lean"]
+                if f not in fs:
+                    fs.append(f)
         return ("Source translator (statement level): these parts of %s are re-translated from the source text into Lean on every "
                 "run (Generated/%s), statement by statement (attribute reads/writes of `self` as fields of the model's state record, "
                 "raising calls as `Except`, loops as recursions), and proved EQUAL to the hand-written model definitions (rfl, case "
